@@ -444,3 +444,81 @@ Definition c14_render_mismatches (cases : list (render_input * render_obs)) : li
   bad_indices (fun c => negb (render_obs_eqb (render_run (fst c)) (snd c))) cases.
 Definition c14_render_violations (cases : list (render_input * render_obs)) : list Z :=
   bad_indices (fun c => negb (render_ok2 c)) cases.
+
+(* ---------------------------------------------------------------- App.Run over a history of terminal resizes *)
+
+(* One App.Run, the terminal resized between frames.  Each step is (cols, rows, tree): the size of
+   the terminal when the frame is painted and the surface tree the root widget's Draw returned
+   for it.  App.Run fetches the root window anew for every frame (win := a.vx.Window(): the
+   CURRENT terminal size, whatever the sizes before were), clears it and renders the root into
+   win.New(0,0,rootW,rootH); a Resize reallocates the screen.  So no window survives between
+   frames: frame k is [apprun_run] of step k alone — after shrinking and growing again the frame
+   is painted through a window of the new, larger size.
+   Observation: outcome (1 = App.Run panicked or returned an error) and the terminal's screen
+   after each frame. *)
+Definition apphist_input : Type := list render_input.
+Definition apphist_obs : Type := Z * list (list (list Z)).
+
+Definition apphist_run (inp : apphist_input) : apphist_obs :=
+  let rs := map apprun_run inp in
+  if existsb (fun r : render_obs => fst r =? 1) rs then (1, []) else (0, map snd rs).
+
+Definition apphist_obs_eqb (a b : apphist_obs) : bool :=
+  (fst a =? fst b) && ((fst a =? 1) || list_eqb (list_eqb zlist_eqb) (snd a) (snd b)).
+
+(* the property on one observed history: no panic when every tree is well formed, one screen per
+   step, and EVERY frame satisfies the clauses of a single App.Run frame for the terminal size of
+   its own step (every cell inside the current window and the root shows what [shown] says,
+   nothing outside; children at their offsets, clipped, in z-order) *)
+Fixpoint apphist_frames_ok (inp : apphist_input) (scrs : list (list (list Z))) : bool :=
+  match inp, scrs with
+  | [], [] => true
+  | i :: inp', scr :: scrs' => apprun_ok (i, (0, scr)) && apphist_frames_ok inp' scrs'
+  | _, _ => false
+  end.
+
+Definition apphist_ok (c : apphist_input * apphist_obs) : bool :=
+  let '(inp, (out, scrs)) := c in
+  if forallb (fun i : render_input => tree_wf_b (snd i)) inp
+  then (out =? 0) && apphist_frames_ok inp scrs
+  else true.
+
+Definition c14_apphist_mismatches (cases : list (apphist_input * apphist_obs)) : list Z :=
+  bad_indices (fun c => negb (apphist_obs_eqb (apphist_run (fst c)) (snd c))) cases.
+Definition c14_apphist_violations (cases : list (apphist_input * apphist_obs)) : list Z :=
+  bad_indices (fun c => negb (apphist_ok c)) cases.
+
+(* every terminal size of the history is a size (decidable hypothesis of the theorems) *)
+Definition sizes_nonneg (inp : apphist_input) : bool :=
+  forallb (fun i : render_input => (0 <=? fst (fst i)) && (0 <=? snd (fst i))) inp.
+
+
+(* Regression witness only: the design that fetches the root window ONCE and, on a Resize, refits it
+   with win.New(0,0,cols,rows).  Window.New clamps to its parent — the PREVIOUS root window — so this
+   window follows a shrinking terminal and never grows again. *)
+Fixpoint apphist_cached_frames (win : window) (inp : apphist_input) : list render_obs :=
+  match inp with
+  | [] => []
+  | (cols, rows, s) :: t =>
+      let win' := win_new win 0 0 cols rows in
+      (match render (win_new win' 0 0 (s_w s) (s_h s)) s with
+       | None => (1, [])
+       | Some ps => match screen_apply (new_screen 0 cols rows) ps with
+                    | None => (1, [])
+                    | Some sc => (0, sc_buf sc)
+                    end
+       end) :: apphist_cached_frames win' t
+  end.
+Definition apphist_cached_run (inp : apphist_input) : apphist_obs :=
+  match inp with
+  | [] => (0, [])
+  | (cols, rows, _) :: _ => (0, map snd (apphist_cached_frames [(0, 0, cols, rows)] inp))
+  end.
+
+
+(* a history that shrinks and then grows beyond its first size *)
+Definition grow_hist : apphist_input :=
+  [(5, 2, Surf 5 2 [1;2;3;4;5;6;7;8;9;10] []);
+   (3, 1, Surf 3 1 [11;12;13] []);
+   (6, 2, Surf 6 2 [21;22;23;24;25;26;27;28;29;30;31;32] [(4, 1, 0, Surf 3 1 [41;42;43] [])])].
+
